@@ -45,6 +45,7 @@ class OblList(list):
 class Exec:
     def __init__(self, decisions=(), assumptions=()):
         self.dec = list(decisions)
+        del REGISTRY[:]
         self.i = 0
         self.conds = list(assumptions)
         self.known = {}
@@ -240,6 +241,9 @@ class Exec:
             v = env.lookup(e.id)
             if v is UNBOUND:
                 raise ExcSig('UnboundLocalError', e.id)
+            if isinstance(v, LoopCarried):
+                raise Unsupported(f'local `{v.name}` is carried from one iteration of loop `{v.loop}` to the next (assigned in the body, read before it is assigned) '
+                                  f'and the loop contract does not havoc it')
             return v
         except NameError:
             pass
@@ -1594,7 +1598,33 @@ class Exec:
         tag = f'loop[{key[:48]}]'
         for name, f in spec.inv(self, env):
             self.oblig.append((f'{tag} invariant holds on entry: {name}', f))
+        # soundness of the cut: every local the body may assign must be havocked.  Locals the contract's havoc re-binds are its responsibility; any other
+        # local that the body assigns (and that is bound here) becomes a LoopCarried marker, so reading it before the body assigns it is a checker error.
+        assigned = _assigned_names(s.body)
+        frame = env.function_frame()
+        scopes = []
+        e_ = env
+        while e_ is not None:
+            scopes.append(e_)
+            if e_ is frame:
+                break
+            e_ = e_.parent
+        before = {n: sc.v[n] for sc in scopes for n in assigned if n in sc.v}
+        cells = {}
+        for n in assigned:       # nonlocal cells of enclosing functions
+            if n not in before and env.has(n):
+                cells[n] = env.lookup(n)
+        heap0 = {(o.oid, k): fingerprint(v) for o in list(REGISTRY) for k, v in o.f.items()}
         spec.havoc(self, env)
+        heap1 = {(o.oid, k): fingerprint(v) for o in list(REGISTRY) for k, v in o.f.items()}
+        havocked = {key_ for key_ in heap1 if heap0.get(key_, ('absent',)) != heap1[key_]}
+        keep = set(getattr(spec, 'keeps', ()))
+        for n, old_v in list(before.items()) + list(cells.items()):
+            if n in keep:
+                continue
+            cur = env.lookup(n) if env.has(n) else None
+            if cur is old_v and not isinstance(old_v, (Closure, Native)) and old_v is not UNBOUND:
+                env.assign(n, LoopCarried(n, key[:40]))
         for _, f in spec.inv(self, env):
             self.assume(f)
         if self.truth(self.ev(s.test, env)):
@@ -1614,6 +1644,20 @@ class Exec:
             finally:
                 if stack and stack[-1] == key:
                     stack.pop()
+            # heap frame of the cut: a field of a heap record that existed at the loop head, that the contract's havoc left alone and that the body modified,
+            # would be stale in the generic iteration.  Append-only ghost logs and fields the contract lists in `heap_keeps` (with its justification) are exempt.
+            hk = set(getattr(spec, 'heap_keeps', ()))
+            for o in list(REGISTRY):
+                for k, v in o.f.items():
+                    key_ = (o.oid, k)
+                    if key_ in heap1 and key_ not in havocked and (o.cls, k) not in hk and ('*', k) not in hk and fingerprint(v) != heap1[key_]:
+                        # final-iteration peel: in the EXACT state reached the loop test is evaluated as the real code does next; if the loop ends here the path
+                        # simply continues behind the loop (no abstraction involved); another iteration from a state the contract does not describe is refused
+                        if not self.truth(self.ev(s.test, env)):
+                            self.cover(f'{tag} final iteration peeled')
+                            self.block(s.orelse, env)
+                            return
+                        raise Unsupported(f'loop {key[:40]!r}: the body modifies {o.cls}.{k}, which the loop contract does not havoc (heap frame of the cut-point rule)')
             for name, f in spec.inv(self, env):
                 self.oblig.append((f'{tag} invariant preserved: {name}', f))
             if hasattr(spec, 'decreases'):
@@ -1659,6 +1703,47 @@ class Exec:
             except Brk:
                 return
         self.block(s.orelse, env)
+
+
+def _assigned_names(stmts):
+    """names a statement list may (re)bind in the enclosing function scope: assignment / augmented / for / with targets, walrus; nested defs excluded"""
+    out = set()
+
+    def targets(t):
+        if isinstance(t, ast.Name):
+            out.add(t.id)
+        elif isinstance(t, (ast.Tuple, ast.List)):
+            for x in t.elts:
+                targets(x)
+        elif isinstance(t, ast.Starred):
+            targets(t.value)
+
+    def walk(n):
+        if isinstance(n, (ast.FunctionDef, ast.Lambda, ast.ClassDef)):
+            if isinstance(n, ast.FunctionDef):
+                out.add(n.name)
+            return
+        if isinstance(n, ast.Assign):
+            for t in n.targets:
+                targets(t)
+        elif isinstance(n, (ast.AugAssign, ast.AnnAssign)):
+            targets(n.target)
+        elif isinstance(n, (ast.For, ast.comprehension)):
+            if not isinstance(n, ast.comprehension):
+                targets(n.target)
+        elif isinstance(n, ast.With):
+            for it in n.items:
+                if it.optional_vars is not None:
+                    targets(it.optional_vars)
+        elif isinstance(n, ast.NamedExpr):
+            out.add(n.target.id)
+        elif isinstance(n, ast.ExceptHandler) and n.name:
+            out.add(n.name)
+        for c in ast.iter_child_nodes(n):
+            walk(c)
+    for s_ in stmts:
+        walk(s_)
+    return out
 
 
 def _as_load(t):
